@@ -22,7 +22,7 @@ DEFAULT_OPTS = {'level': 5, 'mult': 1.718, 'stereo': True, 'remdup': True, 'incl
 def rand_opts(rng, allow_incl_false=True):
     o = dict(DEFAULT_OPTS)
     o['level'] = rng.choice([0, 1, 2, 3, 4, 5, 5, 6, -1, None])
-    o['mult'] = rng.choice([0.5, 1.0, 1.5, 1.718, 1.718, 2.0, 3.0])
+    o['mult'] = rng.choice([0.5, 1.0, 1.5, 1.5, 1.718, 1.718, 1.718, 2.0, 2.0, 3.0])
     o['stereo'] = rng.random() < 0.7
     o['remdup'] = True if o['level'] in (-1, None) else rng.random() < 0.75
     o['incl'] = not (allow_incl_false and rng.random() < 0.2)
